@@ -410,12 +410,16 @@ func MessageFromWireFormat(buf []byte) (Message, error) {
 type messageBuilder struct {
 	w         bytes.Buffer
 	nameCache map[string]int
+	// nameDepth is, for every cached suffix, the number of compression
+	// pointers a reader follows when it decodes the name starting there.
+	nameDepth map[string]int
 }
 
 // newMessageBuilder creates a new messageBuilder with an empty name cache.
 func newMessageBuilder() *messageBuilder {
 	return &messageBuilder{
 		nameCache: make(map[string]int),
+		nameDepth: make(map[string]int),
 	}
 }
 
@@ -428,14 +432,23 @@ func (builder *messageBuilder) Bytes() []byte {
 // compression pointers to previously written names if possible.
 func (builder *messageBuilder) WriteName(name Name) error {
 	// https://tools.ietf.org/html/rfc1035#section-3.1
+	var fresh []string // suffixes cached by this call
 	for i := range name {
-		// Has this suffix already been encoded in the message?
-		if ptr, ok := builder.nameCache[name[i:].String()]; ok && ptr&0x3fff == ptr {
+		// Has this suffix already been encoded in the message? A pointer is
+		// only usable while the chain it starts stays within what
+		// readName is willing to follow (names that each extend the
+		// previous one nest one pointer deeper per name).
+		if ptr, ok := builder.nameCache[name[i:].String()]; ok && ptr&0x3fff == ptr && builder.nameDepth[name[i:].String()] < compressionPointerLimit {
 			// If so, we can write a compression pointer.
+			for _, suffix := range fresh {
+				builder.nameDepth[suffix] = builder.nameDepth[name[i:].String()] + 1
+			}
 			return binary.Write(&builder.w, binary.BigEndian, uint16(0xc000|ptr))
 		}
 		// Not cached; we must encode this label verbatim. Store a cache
 		// entry pointing to the beginning of it.
+		fresh = append(fresh, name[i:].String())
+		builder.nameDepth[name[i:].String()] = 0
 		builder.nameCache[name[i:].String()] = builder.w.Len()
 		length := len(name[i])
 		if length == 0 || length > 63 {
